@@ -4,7 +4,7 @@ import RNacos.Driver.Util
 Line protocol of model `sequence` (C19).
   db nextid <k> | db nextrange <k> <step> | db setid <k> <v> | db removeid <k>   -> id N | range S L | ok
   g new | g next | g apply <s> <l> | g need                                       -> ok | some N | none | true/false
-  c new <n> <start> <batch> | c issue <i> | c restart <i> | c ends                 -> ok | id N mark M or "-" | ok | ends e0,e1,…
+  c new <n> <start> <batch> | c issue <i> | c restart <i> | c snap <i> | c restartsaved <i> | c ends                 -> ok | id N mark M or "-" | ok | ends e0,e1,…
 -/
 namespace RNacos.Driver.Sequence
 open RNacos.Sequence RNacos.Driver RNacos
@@ -14,6 +14,7 @@ structure St where
   g : SeqGroup := SeqGroup.new
   n : Nat := 0
   c : Cluster := fun _ => SimpleSeq.new 0 100
+  sv : Nat → Option Saved := fun _ => none     -- the snapshot each node would restart from (`c snap`)
 
 def stepC (s : St) (ws : List String) : St × String :=
   match ws with
@@ -40,20 +41,33 @@ def stepC (s : St) (ws : List String) : St × String :=
   | ["g", "need"] => (s, if s.g.needApply then "true" else "false")
   | ["c", "new", n, st, b] =>
     match n.toNat?, st.toNat?, b.toNat? with
-    | some n, some st, some b => ({ s with n := n, c := fun _ => SimpleSeq.new st b }, "ok")
+    | some n, some st, some b => ({ s with n := n, c := fun _ => SimpleSeq.new st b, sv := fun _ => none }, "ok")
     | _, _, _ => (s, "bad-op")
   | ["c", "issue", i] =>
     match i.toNat? with
     | some i =>
       if i < s.n then
         let mark := (s.c i).nextState.1.2
-        let r := clusterStep s.c (.issue i)
-        ({ s with c := r.1 }, s!"id {r.2.getD 0} mark {match mark with | some m => toString m | none => "-"}")
+        let r := cluster2Step ⟨s.c, s.sv⟩ (.issue i)
+        ({ s with c := r.1.nodes, sv := r.1.saved }, s!"id {r.2.getD 0} mark {match mark with | some m => toString m | none => "-"}")
       else (s, "bad-op")
     | none => (s, "bad-op")
   | ["c", "restart", i] =>
     match i.toNat? with
     | some i => if i < s.n then ({ s with c := (clusterStep s.c (.restart i)).1 }, "ok") else (s, "bad-op")
+    | none => (s, "bad-op")
+  | ["c", "snap", i] =>
+    match i.toNat? with
+    | some i => if i < s.n then ({ s with sv := (cluster2Step ⟨s.c, s.sv⟩ (.snapshot i)).1.saved }, "ok") else (s, "bad-op")
+    | none => (s, "bad-op")
+  | ["c", "restartsaved", i] =>
+    match i.toNat? with
+    | some i =>
+      if i < s.n then
+        match s.sv i with
+        | some _ => ({ s with c := (cluster2Step ⟨s.c, s.sv⟩ (.restartSaved i)).1.nodes }, "ok")
+        | none => (s, "nosnapshot")
+      else (s, "bad-op")
     | none => (s, "bad-op")
   | ["c", "ends"] =>
     (s, "ends " ++ ",".intercalate ((List.range s.n).map fun i => toString (s.c i).endId))
@@ -66,6 +80,8 @@ def step (s : St) (ws : List String) : St × String :=
   | ["r", "new", n] => stepC s ["c", "new", n, "0", "100"]
   | ["r", "issue", i, _, _] => stepC s ["c", "issue", i]
   | ["r", "restart", i, _] => stepC s ["c", "restart", i]
+  | ["r", "snap", i] => stepC s ["c", "snap", i]
+  | ["r", "restartsaved", i] => stepC s ["c", "restartsaved", i]
   | ["r", "ends"] => stepC s ["c", "ends"]
   | _ => stepC s ws
 
